@@ -790,6 +790,12 @@ func main() {
 			distinct[sha256.Sum256([]byte("c"+s.QName()+string(pd.input)))] = len(pd.input) > 8
 		}
 	}
+	// the required-field bit set generator, observed directly (corpus program's shards)
+	for n := 0; n <= 72; n++ {
+		term, desc := bitsetCase(n)
+		getW(0).Add(term, desc)
+		st.CaseKinds["bitset"]++
+	}
 	var shards []string
 	total := 0
 	for pi, w := range writers {
@@ -805,7 +811,7 @@ func main() {
 		}
 		total += w.Total()
 	}
-	st.Evaluations = st.CaseKinds["write"] + st.CaseKinds["read"] + st.Prefixes + st.Corruptions + st.CaseKinds["corrupt"]
+	st.Evaluations = st.CaseKinds["write"] + st.CaseKinds["read"] + st.Prefixes + st.Corruptions + st.CaseKinds["corrupt"] + st.CaseKinds["bitset"]
 	for _, nt := range distinct {
 		if nt {
 			st.Distinct++
